@@ -153,6 +153,11 @@ func (r *ReaderStream) ReassemblyComplete() {
 // slices.
 func (r *ReaderStream) stripEmpty() {
 	for len(r.current) > 0 && len(r.current[0].Bytes) == 0 {
+		if r.LossErrors && !r.lossReported && r.current[0].Skip != 0 {
+			// An empty reassembly (for instance a bare FIN) that follows a
+			// gap: keep it until Read has reported the loss.
+			return
+		}
 		r.current = r.current[1:]
 		r.lossReported = false
 	}
